@@ -23,8 +23,8 @@ MANIFEST = {
                 "emission iterator is an index into the slot list, an activation constructed without signal data is inert and "
                 "pushes no frame, the identity (address) of a List node is a number from an allocation counter (theorem "
                 "node_is_ghost: it influences nothing); one model of `emit`/`connect`/`disconnect` stands for the nine arity "
-                "overloads, which differ in the argument list only (the harness uses the arity-0 overloads for signal 0 and the "
-                "arity-1 overloads for signal 1). Single-threaded use. Slot bodies are finite scripts indexed by (listener, slot, "
+                "overloads, which differ in the argument list only (the harness uses the arity-0 overloads for signal 0, the "
+                "arity-1 overloads for signal 1 and the arity-8 overloads for signal 2). Single-threaded use. Slot bodies are finite scripts indexed by (listener, slot, "
                 "invocation number). Accesses to a List item after "
                 "`List::remove` are invisible to ASan (nstd pools list items) - the check would only see their effect on the "
                 "observables. The model mirrors the code WITH the repair of defect D18 (fixes/callback/0001-*.patch); on the "
@@ -36,7 +36,7 @@ PROPS = ["Nstd.Callback.Props"]
 DRIVER = "drv_callback"
 LEAN_TARGETS = PROPS + [DRIVER]
 SOURCES = ["callback.cpp", C.REPO / "src/Callback.cpp", C.REPO / "src/Memory.cpp"]
-NE, NG, NL, NS, MAXK, MAXACT = 3, 2, 3, 2, 8, 8
+NE, NG, NL, NS, MAXK, MAXACT = 3, 3, 3, 2, 8, 8
 
 
 # ---- actions ---------------------------------------------------------------------------------------
@@ -461,11 +461,12 @@ def nesting_depth(hist):
     return depth[1]
 
 
-def swap_signals(h):
-    """the same program with signals 0 and 1 exchanged (signal 1 goes through the arity-1 overloads)"""
+def swap_signals(h, perm=(1, 0, 2)):
+    """the same program with the signals renamed (signal 1 goes through the arity-1, signal 2 through the
+    arity-8 overloads)"""
     def tokmap(t):
         if t[0] in "cdm":
-            return t[0] + t[1] + str(1 - int(t[2])) + t[3:]
+            return t[0] + t[1] + str(perm[int(t[2])]) + t[3:]
         return t
     out = []
     for line in h:
@@ -473,7 +474,7 @@ def swap_signals(h):
         if w[0] == "script":
             out.append(" ".join(w[:4] + [tokmap(t) for t in w[4:]]))
         elif w[0] in ("connect", "disconnect", "emit"):
-            w[2] = str(1 - int(w[2]))
+            w[2] = str(perm[int(w[2])])
             out.append(" ".join(w))
         else:
             out.append(line)
@@ -508,8 +509,11 @@ def histories_for(ctx):
             ex += e
             if U[:4] == (1, 1, 2, 2):
                 # once more with the only signal being signal 1 (arity-1 overloads of emit/connect/disconnect)
-                ex += [swap_signals(h) for h in e]
-                desc.append(f"the same over signal 1: {len(e)}")
+                ex += [swap_signals(h) for h in e] + [swap_signals(h, (2, 0, 1)) for h in e]
+                desc.append(f"the same over signal 1 and over signal 2: 2 x {len(e)}")
+            if U[:4] == (2, 2, 2, 2):
+                ex += [swap_signals(h, (1, 2, 0)) for h in e]
+                desc.append(f"the same over signals 1,2: {len(e)}")
     nrand = 5000 if quick else 100000
     rnd = [gen_program(rng, rng.choice([6, 10, 16, 24, 40])) for _ in range(nrand)]
     depths = {}
@@ -519,7 +523,7 @@ def histories_for(ctx):
     ctx.cov["nesting_depth_histogram_first_2000_random"] = {str(k): v for k, v in sorted(depths.items())}
     ctx.cov["rule"] = (f"corpus ({ncorpus}) + exhaustive: every program (top-level actions + slot scripts, up to renaming of emitters/"
                        f"signals/listeners/slots) of total size <= N in which every scripted cell is invoked [{'; '.join(desc)}] + "
-                       f"{len(rnd)} random programs of total size <= 6..40 over 3 emitters x 2 signals x 3 listeners x 2 slots "
+                       f"{len(rnd)} random programs of total size <= 6..40 over 3 emitters x 3 signals (arity 0, 1, 8) x 3 listeners x 2 slots "
                        "(scripts on invocation numbers < 8, connect/disconnect/emit/delete or re-create listener/emitter inside slots); "
                        "distinct_nontrivial = distinct observation streams among programs with >= 3 slot invocations")
     ctx.cov["exhaustive"] = False
